@@ -147,9 +147,23 @@ def rand_pair(rng, reject=False):
         return None
     rho = sorted([o_new[x], m_new[x]] for x in real)
     aa = rng.random() < 0.55
-    defs = RS.rand_frag_block(rng, pool, aa, squash=False)
-    block = '.{' + ','.join(defs) + '}'
-    return {'kind': 1 if reject else 0, 'orig': o_text + block, 'modf': m_text + block, 'rho': rho, 'aa': aa,
+    levels = 1
+    if not reject and rng.random() < 0.4:
+        # two or three fragment layers: the virtual nodes sit in the coarsest graph, the finer levels must not notice
+        import re as _re
+        levels = rng.choice([2, 2, 3])
+        block = ''
+        cur = pool
+        for lv in range(levels):
+            last = lv == levels - 1
+            defs = RS.rand_frag_block(rng, cur, aa and last, squash=False)
+            block += '.{' + ','.join(defs) + '}'
+            if not last:
+                cur = sorted(set(_re.findall(r'\[#([A-Za-z0-9]+)', ','.join(d.split('=', 1)[1] for d in defs)))) or ['X']
+    else:
+        defs = RS.rand_frag_block(rng, pool, aa, squash=False)
+        block = '.{' + ','.join(defs) + '}'
+    return {'kind': 1 if reject else 0, 'orig': o_text + block, 'modf': m_text + block, 'rho': rho, 'aa': aa, 'levels': levels,
             'legacy': rng.random() < 0.6, 'ops': ops,
             'want_o': [o_nm, sorted([sorted(k), o] for k, o in intended_edges(o_ch, o_od, o_rg).items())],
             'want_m': [m_nm, sorted([sorted(k), o] for k, o in intended_edges(m_ch, m_od, m_rg).items())]}
@@ -190,6 +204,7 @@ class C11(RS.StepProp):
         self.begin_round()
         fr = '.{#A=[$]CC[$],#B=[$]OC}'
         cg = '.{#A=[$][#X][#Y][$],#B=[$][#P]}'
+        ml = '.{#P=[$][#A][#B][$],#Q=[$][#B][#A][$]}.{#A=[$]CC[$],#B=[$]O[$]}'
         return [
             {'kind': 0, 'orig': '{[#A][#B]}' + fr, 'modf': '{[#V].[#A][#B]}' + fr, 'rho': [[0, 1], [1, 2]], 'aa': True, 'legacy': True},
             {'kind': 0, 'orig': '{[#A][#B]}' + fr, 'modf': '{[#A][#B].[#V]}' + fr, 'rho': [[0, 0], [1, 1]], 'aa': True, 'legacy': True},
@@ -197,6 +212,9 @@ class C11(RS.StepProp):
             {'kind': 0, 'orig': '{[#A].[#B]}' + cg, 'modf': '{[#A].[#V].[#B]}' + cg, 'rho': [[0, 0], [1, 2]], 'aa': False, 'legacy': True},
             {'kind': 0, 'orig': '{[#A][#B][#A]}' + cg, 'modf': '{[#A].1[#B][#A]1}' + cg, 'rho': [[0, 0], [1, 1], [2, 2]], 'aa': False, 'legacy': True},
             {'kind': 0, 'orig': '{[#A][#B]}' + cg, 'modf': '{[#A].1[#B].[#V]1}' + cg, 'rho': [[0, 0], [1, 1]], 'aa': False, 'legacy': True},
+            {'kind': 0, 'orig': '{[#P][#Q][#P]}' + ml, 'modf': '{[#P][#Q][#P].[#V]}' + ml, 'rho': [[0, 0], [1, 1], [2, 2]], 'aa': True, 'legacy': True, 'level': 0},
+            {'kind': 0, 'orig': '{[#P][#Q][#P]}' + ml, 'modf': '{[#P][#Q][#P].[#V]}' + ml, 'rho': [[0, 0], [1, 1], [2, 2]], 'aa': True, 'legacy': True, 'level': 1},
+            {'kind': 0, 'orig': '{[#P][#Q]}' + ml, 'modf': '{[#P].([#V])[#Q]}' + ml, 'rho': [[0, 0], [1, 2]], 'aa': True, 'legacy': True, 'level': 1},
             {'kind': 1, 'orig': '{[#A][#B]}' + fr, 'modf': '{[#V][#A][#B]}' + fr, 'rho': [[0, 1], [1, 2]], 'aa': True, 'legacy': True},
             {'kind': 1, 'orig': '{[#A][#B]}' + cg, 'modf': '{[#A][#B]=[#V]}' + cg, 'rho': [[0, 0], [1, 1]], 'aa': False, 'legacy': True},
             {'kind': 1, 'orig': '{[#A][#B]}' + cg, 'modf': '{[#A].[#V][#B]}' + cg, 'rho': [[0, 0], [1, 2]], 'aa': False, 'legacy': True},
@@ -211,23 +229,42 @@ class C11(RS.StepProp):
         while len(out) < n:
             c = rand_pair(rng, reject=rng.random() < 0.12)
             if c is not None:
-                out.append(c)
+                for lv in range(c.get('levels', 1)):
+                    out.append(dict(c, level=lv))
         return out
 
     def run_impl(self, case):
         from cgsmiles.resolve import MoleculeResolver
 
+        level = case.get('level', 0)
+
         def one(text, want):
-            try:
-                r = MoleculeResolver.from_string(text, last_all_atom=case['aa'], legacy=case['legacy'])
-            except Exception as exc:          # noqa: BLE001
-                return {'skip': 'constructor: ' + type(exc).__name__}
-            if want is not None and not base_as_intended(r, want):
-                return {'skip': 'the reader did not produce the intended base graph'}
-            rec, _ = RS.record_resolve(r)
-            return rec
+            key = (text, case['aa'], case['legacy'])
+            if key not in self._reccache:
+                if len(self._reccache) > 64:
+                    self._reccache.clear()
+                try:
+                    r = MoleculeResolver.from_string(text, last_all_atom=case['aa'], legacy=case['legacy'])
+                except Exception as exc:          # noqa: BLE001
+                    self._reccache[key] = [{'skip': 'constructor: ' + type(exc).__name__}]
+                else:
+                    if want is not None and not base_as_intended(r, want):
+                        self._reccache[key] = [{'skip': 'the reader did not produce the intended base graph'}]
+                    else:
+                        self._reccache[key] = RS.record_all(r)
+            recs = self._reccache[key]
+            if 'skip' in recs[0]:
+                return recs[0]
+            if level >= len(recs):
+                return {'skip': 'level not reached'} if text == case['orig'] else \
+                       {'legacy': recs[-1]['legacy'], 'aa': recs[-1]['aa'], 'prev': [], 'fd': [], 'stage': 1,
+                        'exc': 'level not reached: ' + str(recs[-1].get('exc'))}
+            return recs[level]
         ro = one(case['orig'], case.get('want_o'))
         rm = one(case['modf'], case.get('want_m'))
+        if level > 0 and 'skip' not in ro:
+            # below the first level the coarse graph of both runs is the previous fine graph: same keys
+            case = dict(case, rho=[[k, k] for k, _, _ in ro['prev']])
         if 'skip' in ro or 'skip' in rm:
             why = ro.get('skip') or rm.get('skip')
             return {'skip': why, '_k': self.put_term([], '{| c_kind := 0%%nat; c_orig := %s; c_modf := %s; c_rho := [] |}'
@@ -261,7 +298,7 @@ class C11(RS.StepProp):
         tag = 'all-atom' if case['aa'] else 'coarse'
         if impl['orig'].get('exc'):
             return tag + ':original-not-resolvable'
-        return '%s:%s%s' % (tag, '+'.join(sorted(set(case.get('ops', ['corpus'])))),
+        return '%s:%s%s%s' % (tag, 'level%d:' % case['level'] if case.get('level') else '', '+'.join(sorted(set(case.get('ops', ['corpus'])))),
                             ':virtual-not-last' if impl['class'] else '')
 
 
